@@ -20,6 +20,18 @@ class BE(BaseException):
     pass
 
 
+class FalsyE(E):
+    """an exception instance may be falsy (an empty 'list of problems' error defining __len__ / __bool__)"""
+
+    def __bool__(self):
+        return False
+
+
+class FalsyBE(BE):
+    def __bool__(self):
+        return False
+
+
 def strategy(tier):
     op = st.one_of(
         st.sampled_from([["add"], ["add"], ["flush"], ["cancel", False], ["cancel", True], ["batch_value"], ["batch_error"], ["query"]]),
@@ -28,7 +40,8 @@ def strategy(tier):
     plan = st.fixed_dictionaries({"mode": st.lists(st.sampled_from("ve-"), min_size=1, max_size=3), "fail": st.sampled_from([None, None, "exc", "base"]),
                                   "spawn": st.booleans(), "self_cancel": st.sampled_from([False, False, False, True])})
     ops = st.tuples(st.integers(0, 5), st.lists(op, min_size=1, max_size=25 if tier == "quick" else 50)).map(lambda t: [["add"]] * t[0] + t[1])
-    return st.fixed_dictionaries({"target": st.sampled_from(["harness", "harness", "harness", "debug"]), "plan": plan, "ops": ops})
+    return st.fixed_dictionaries({"target": st.sampled_from(["harness", "harness", "harness", "debug"]), "plan": plan, "ops": ops,
+                                  "falsy_errors": st.sampled_from([False, False, True])})
 
 
 def check(case, ctx):
@@ -41,8 +54,9 @@ def check(case, ctx):
     if debug:
         plan = {"mode": ["v"], "fail": None, "spawn": False, "self_cancel": False}
     mode, fail, spawn, self_cancel = plan["mode"], plan["fail"], plan["spawn"], plan["self_cancel"]
-    flush_exc = E("flush")
-    flush_base = BE("flush")
+    EX, BX = (FalsyE, FalsyBE) if case.get("falsy_errors") else (E, BE)
+    flush_exc = EX("flush")
+    flush_base = BX("flush")
 
     class Kind(object):
         cur = None
@@ -71,9 +85,9 @@ def check(case, ctx):
                 if act == "v":
                     i.set_value(["v", n])
                 elif act == "e":
-                    i.set_error(E(("item", n)))
+                    i.set_error(EX(("item", n)))
             if self_cancel:
-                self.cancel(E("self-cancel"))
+                self.cancel(EX("self-cancel"))
             if fail == "exc":
                 raise flush_exc
             if fail == "base":
@@ -106,11 +120,11 @@ def check(case, ctx):
                 elif act == "v":
                     out.append(["v", ["v", n]])
                 elif act == "e":
-                    out.append(["e", E, ("item", n)])
+                    out.append(["e", EX, ("item", n)])
                 elif self_cancel:
-                    out.append(["e", E, "self-cancel"])
+                    out.append(["e", EX, "self-cancel"])
                 elif fail:
-                    out.append(["e", E if fail == "exc" else BE, "flush"])
+                    out.append(["e", EX if fail == "exc" else BX, "flush"])
                 else:
                     out.append(["e", AssertionError, None])
             else:
@@ -119,9 +133,9 @@ def check(case, ctx):
         if how == "flush":
             M["runs"] += 1
             if self_cancel:
-                M["state"] = "cancelled"; M["berr"] = E
+                M["state"] = "cancelled"; M["berr"] = EX
             elif fail:
-                M["state"] = "cancelled"; M["berr"] = E if fail == "exc" else BE
+                M["state"] = "cancelled"; M["berr"] = EX if fail == "exc" else BX
             else:
                 M["state"] = "flushed"; M["berr"] = None
         else:
@@ -169,7 +183,7 @@ def check(case, ctx):
             elif not (r[0] == "exc" and isinstance(r[1], BatchingError)):
                 bad("flush", "second flush() gave %r instead of raising BatchingError" % (r,))
         elif name == "cancel":
-            err = E("cancel") if op[1] else None
+            err = EX("cancel") if op[1] else None
             r = run(lambda: b.cancel(err))
             if r != ["ret", None]:
                 bad("cancel", "cancel() gave %r (must never raise)" % (r,))
@@ -240,6 +254,7 @@ def check(case, ctx):
         if viol:
             break
     ctx.label("target=" + case["target"])
+    ctx.label("falsy-error-instances", bool(case.get("falsy_errors")))
     ctx.label("finished=" + M["state"])
     ctx.label("flush-raises", bool(fail) and M["runs"] > 0)
     ctx.label("spawn-in-flush", spawn and M["runs"] > 0 and not debug)
